@@ -26,6 +26,7 @@ import (
 
 	"github.com/bandprotocol/chain/v3/pkg/filecache"
 	bandtesting "github.com/bandprotocol/chain/v3/testing"
+	oraclekeeper "github.com/bandprotocol/chain/v3/x/oracle/keeper"
 	"github.com/bandprotocol/chain/v3/x/oracle/types"
 	"github.com/bandprotocol/chain/v3/yoda"
 	"github.com/bandprotocol/chain/v3/yoda/executor"
@@ -62,6 +63,8 @@ type caseSpec struct {
 	Idx  int       `json:"idx"`
 	DS   []dsSpec  `json:"ds"`
 	Reqs []reqSpec `json:"reqs"`
+	// the requests arrive as the events of ONE transaction (yoda's handleTransaction), not one by one
+	ViaTx bool `json:"viaTx"`
 }
 
 func fileOf(d dsSpec) []byte {
@@ -101,6 +104,7 @@ func genCase(r *fx.Rng, idx int) caseSpec {
 		}
 		c.Reqs = append(c.Reqs, rq)
 	}
+	c.ViaTx = r.Chance(1, 3)
 	return c
 }
 
@@ -226,22 +230,50 @@ func child(specPath string, from int) {
 			app.OracleKeeper.SetRequest(ctx, types.RequestID(rq.RID), req)
 			node.store[string(types.RequestStoreKey(types.RequestID(rq.RID)))] = app.AppCodec().MustMarshal(&req)
 		}
-		for _, rq := range cs.Reqs {
-			wg.Add(1)
-			go func(id uint64) {
-				defer wg.Done()
-				vc.HandleRequest(types.RequestID(id))
-			}(rq.RID)
-		}
-		done := make(chan struct{})
-		go func() { wg.Wait(); close(done) }()
+		var msgs []*types.MsgReportData
 		hung := false
-		select {
-		case <-done:
-		case <-time.After(8 * time.Second):
-			hung = true // some request never finished: its goroutines are leaked, this process is abandoned
+		if cs.ViaTx {
+			// one successful transaction whose result carries a `request` event per request (with the raw_request events
+			// of a real MsgRequestData in between); handleTransaction starts the handlers itself, so wait for as many
+			// reports as requests select this validator
+			var evs []abci.Event
+			want := 0
+			for _, rq := range cs.Reqs {
+				evs = append(evs, abci.Event{Type: types.EventTypeRequest, Attributes: []abci.EventAttribute{
+					{Key: types.AttributeKeyID, Value: fmt.Sprint(rq.RID)}, {Key: "client_id", Value: "client"}}})
+				for _, rs := range rq.Raws {
+					evs = append(evs, abci.Event{Type: types.EventTypeRawRequest, Attributes: []abci.EventAttribute{
+						{Key: types.AttributeKeyDataSourceID, Value: fmt.Sprint(rs.DS)}, {Key: types.AttributeKeyExternalID, Value: fmt.Sprint(rs.EID)}}})
+				}
+				if rq.Selected {
+					want++
+				}
+			}
+			vc.HandleTransaction(abci.TxResult{Height: 5, Tx: []byte("tx"), Result: abci.ExecTxResult{Code: 0, Events: evs}})
+			deadline := time.Now().Add(8 * time.Second)
+			for len(msgs) < want && time.Now().Before(deadline) {
+				msgs = append(msgs, vc.PendingReports()...)
+				time.Sleep(time.Millisecond)
+			}
+			time.Sleep(20 * time.Millisecond) // a duplicate report, if any, follows at once
+			msgs = append(msgs, vc.PendingReports()...)
+		} else {
+			for _, rq := range cs.Reqs {
+				wg.Add(1)
+				go func(id uint64) {
+					defer wg.Done()
+					vc.HandleRequest(types.RequestID(id))
+				}(rq.RID)
+			}
+			done := make(chan struct{})
+			go func() { wg.Wait(); close(done) }()
+			select {
+			case <-done:
+			case <-time.After(8 * time.Second):
+				hung = true // some request never finished: its goroutines are leaked, this process is abandoned
+			}
+			msgs = vc.PendingReports()
 		}
-		msgs := vc.PendingReports()
 		res := map[uint64][]any{}
 		for _, m := range msgs {
 			reps := append([]types.RawReport{}, m.RawReports...)
@@ -253,6 +285,15 @@ func child(specPath string, from int) {
 			vb := fx.ErrStr(m.ValidateBasic())
 			v, _ := sdk.ValAddressFromBech32(m.Validator)
 			cv := fx.ErrStr(app.OracleKeeper.CheckValidReport(ctx, m.RequestID, v, m.RawReports))
+			if cv == "" {
+				// …and the chain's own handler takes it (on a branch: every report is judged against the same state)
+				bctx, _ := ctx.CacheContext()
+				mm := *m
+				cv = fx.Try(func() error {
+					_, err := oraclekeeper.NewMsgServerImpl(app.OracleKeeper).ReportData(bctx, &mm)
+					return err
+				})
+			}
 			res[uint64(m.RequestID)] = append(res[uint64(m.RequestID)], map[string]any{"raws": rr, "validateBasic": vb, "checkValid": cv, "validatorIsMe": m.Validator == val.String()})
 		}
 		out, _ := json.Marshal(res)
